@@ -1023,7 +1023,7 @@ func (x *Exec) panicExit(st *State, fr *Frame, n ast.Node, label, src string) {
 	var conds []Term
 	top := x.topFrame(fr)
 	if top.proc != nil {
-		for _, c := range top.proc.PanicsWhen {
+		for _, c := range append(append([]Clause(nil), top.proc.PanicsWhen...), top.proc.MayPanic...) {
 			env := top.env(st)
 			env.st = top.entry
 			env.old = top.entry
